@@ -20,7 +20,7 @@ LEVEL_NOTE = "Trusted: the reference adjacency computed in vf/oracles.py (a doze
 RULE = ("case = DCOP description; non-trivial = >=3 variables, a constraint of arity>=3 or two constraints with the "
         "same scope, and >=1 isolated or unary-only variable or >=5 variables; distinct by sha1(case)")
 ASSUMPTIONS = ["variable and constraint names are distinct identifiers"]
-BUDGET = {"quick": {"workers": 4, "examples": 600, "seconds": 40},
+BUDGET = {"quick": {"workers": 8, "examples": 900, "seconds": 40},
           "thorough": {"workers": 16, "examples": 5000, "seconds": 400}}
 
 
